@@ -299,6 +299,8 @@ impl PhoneticSuggestion {
 
                         // Save this for future reuse.
                         selections.insert(string.word().to_string(), selected.to_string());
+                        // The longest base wins, don't pile up the other matching splits on it.
+                        break;
                     }
                 }
             }
